@@ -115,7 +115,8 @@ type opsCase struct {
 	Ops   []opRec `json:"ops"`
 	// Repaired: the reference side is the repaired navigator fixNav (Model/Nav.v run_dom true),
 	// which makes sequences with MoveToRoot on an attribute position (Q2) comparable.
-	Repaired bool `json:"repaired_reference,omitempty"`
+	Repaired bool         `json:"repaired_reference,omitempty"`
+	Pool     *poolPrelude `json:"earlier_document,omitempty"`
 }
 
 type opsOutcome struct {
@@ -125,6 +126,7 @@ type opsOutcome struct {
 	touched    bool // an operation ran on an attribute position, or a sibling move succeeded
 	quirkQ1    int
 	outOfScope bool // the sequence performs Q2 (MoveToRoot on an attribute position of the reference)
+	hang       bool
 }
 
 func initRegs(n xpath.NodeNavigator) []xpath.NodeNavigator {
@@ -165,7 +167,21 @@ func refNav(n *xmlquery.Node, fx bool) xpath.NodeNavigator {
 	return xmlquery.CreateXPathNavigator(n)
 }
 
+// runOps under a watchdog: a navigator move that walks sibling links (MoveToFirst, MoveToChild)
+// does not return on a tree whose links form a cycle.
 func runOps(d *docCtx, startIdx int, ops []opRec, fx bool) *opsOutcome {
+	var out *opsOutcome
+	if e := guarded(func() { out = runOpsRaw(d, startIdx, ops, fx) }); e != "" || out == nil {
+		hung++
+		return &opsOutcome{failAt: 0, failWhat: "a navigator operation of the sequence does not return or panics outside the operation: " + e,
+			xres: make([]opRes, len(ops)), ires: make([]opRes, len(ops)), hang: true}
+	}
+	return out
+}
+
+var hung int // evaluations that never returned (their goroutines keep spinning): the run stops after a few
+
+func runOpsRaw(d *docCtx, startIdx int, ops []opRec, fx bool) *opsOutcome {
 	out := &opsOutcome{failAt: -1}
 	xr := initRegs(refNav(d.xnodes[startIdx], fx))
 	ir := initRegs(idr.VerifNavigator(d.inodes[startIdx]))
@@ -213,10 +229,13 @@ func runOps(d *docCtx, startIdx int, ops []opRec, fx bool) *opsOutcome {
 
 // genOps draws an operation sequence.  It looks at the reference navigator's state only to stay
 // out of Q2 (MoveToRoot on an attribute position, where xmlquery keeps its attribute index).
-func genOps(r *vh.Rng, d *docCtx, startIdx int, fx bool) []opRec {
-	n := r.Between(5, 200)
-	var ops []opRec
+func genOps(r *vh.Rng, d *docCtx, startIdx int, fx bool, prefix []opRec) []opRec {
+	n := r.Between(5, 200-len(prefix)) + len(prefix)
+	ops := append([]opRec(nil), prefix...)
 	xr := initRegs(refNav(d.xnodes[startIdx], fx))
+	for _, o := range prefix {
+		applyOp(xr, o)
+	}
 	observeAll := r.Chance(0.5)
 	for len(ops) < n {
 		x := r.Pick(nRegs)
@@ -297,6 +316,9 @@ func shrinkOps(d *docCtx, startIdx int, ops []opRec, what string, fx bool) []opR
 		for i := len(cur) - 2; i >= 0; i-- {
 			cand := append(append([]opRec(nil), cur[:i]...), cur[i+1:]...)
 			out := runOps(d, startIdx, cand, fx)
+			if out.hang {
+				return cur
+			}
 			if !out.outOfScope && out.failAt >= 0 && out.failWhat == what {
 				cur = cand[:out.failAt+1]
 				changed = true
